@@ -42,10 +42,12 @@ def run(replay=None):
         scheds = c.enumerate("lib/NetFaults.tla", {"K": 1, "NDg": 4 if not thorough else 8, "Kinds": {"drop", "delay"}, "Dirs": {"c2s", "s2c"}})
         whats = ["vn_other", "vn_offered", "vn_v1", "retry_bad", "close", "replay"]
         clients = ["plain", "chrome115"] if not thorough else ["plain", "unil", "chrome115", "chrome146", "firefox116"]
-        for cl in clients:
+        for cl in clients + (["unil"] if "unil" not in clients else []):
             for srv in ("default", "retry", "v2only"):
                 if srv == "v2only" and cl not in ("plain", "unil"):
                     continue  # spec clients cannot re-dial after version negotiation (known finding of C02)
+                if cl == "unil" and srv != "v2only" and not thorough:
+                    continue  # quick tier: the second dial path (UTransport.doDial) where it differs - the re-dial after version negotiation
                 for what in whats:
                     for d in ("c2s", "s2c"):
                         for after in range(1, 6 if not thorough else 9):
